@@ -118,6 +118,7 @@ type expectation struct {
 }
 
 type model struct {
+	onceSelfUnsub bool // a claimed Once registration was unsubscribed during its publish
 	c       *Case
 	regs    map[int][]*reg
 	stack   []hkey
@@ -195,9 +196,26 @@ func (m *model) apply(o Op, path string) {
 		if idx >= 0 && rs[idx].inflight {
 			// The first match is a Once registration that has been claimed
 			// by a publish still in progress: whether it still counts as
-			// registered is not fixed by the property.  Skip (counted).
-			m.exp.skip[path] = true
-			m.exclOnce++
+			// registered is not fixed by the property.  If it is the only
+			// registration of this handler, both readings agree on what is
+			// left afterwards (none), so the call is made and either result
+			// is accepted; with further registrations of the same handler it
+			// is not determined which one goes: skipped (counted).
+			others := 0
+			for i, r := range rs {
+				if i != idx && r.slot == o.Slot && r.ctx == o.Ctx {
+					others++
+				}
+			}
+			if others > 0 {
+				m.exp.skip[path] = true
+				m.exclOnce++
+				return
+			}
+			m.exp.query[path] = queryRes{errOK: true, nilOK: true}
+			m.regs[ti] = append(append([]*reg{}, rs[:idx]...), rs[idx+1:]...)
+			m.removed[ti] = true
+			m.onceSelfUnsub = true
 			return
 		}
 		if idx < 0 {
@@ -492,6 +510,9 @@ func Run(c *Case) (Result, []*vkit.Violation) {
 	}
 	if m.removalThenPub {
 		res.Classes = append(res.Classes, "removal_then_publish")
+	}
+	if m.onceSelfUnsub {
+		res.Classes = append(res.Classes, "claimed_once_registration_unsubscribed_during_its_publish")
 	}
 	if m.delivered {
 		res.Classes = append(res.Classes, "delivered")
